@@ -17,8 +17,15 @@ work/bin/constgen: tools/constgen/main.go
 	mkdir -p work/bin
 	cd tools/constgen && go build -o $(V)/work/bin/constgen .
 
-consts: work/bin/constgen
+work/bin/go2coq: tools/go2coq/main.go
+	mkdir -p work/bin
+	cd tools/go2coq && go build -o $(V)/work/bin/go2coq .
+
+# Gen/Consts.v (constants) and Gen/Code.v (generated code models, tools/go2coq); both tools rewrite their
+# output only when the content changed; a translator failure (source outside the subset) fails the target
+consts: work/bin/constgen work/bin/go2coq
 	work/bin/constgen $(REPO) coq/theories/Gen/Consts.v
+	work/bin/go2coq $(REPO) coq/theories/Gen/Code.v
 
 coqproject:
 	@( echo "-Q theories GocqlV"; echo "-arg -w -arg -notation-overridden,-deprecated-hint-without-locality,-deprecated-instance-without-locality"; cd coq && find theories -name '*.v' | LC_ALL=C sort ) > coq/_CoqProject.new
